@@ -55,9 +55,25 @@ def run(res, tier, br, model_ok=True, search=False):
         nih = sum(1 for x in d0 if x[1] == "INVALID_HEADER")
         if nih != 1:
             res.report("header:not-once", f"{name}: headerless file gets {nih} INVALID_HEADER", {"kind": "header", "name": name, "src": src})
+    # violating variants that keep the line structure of their program (the item positions stay valid), and in any
+    # case some with the violations that rules remember across statements (long lines, counters)
+    from gen import mutate
+    forced = []
+    for oid in ("V82_81_columns", "V01_trailing_space", "V44_two_instructions"):
+        op = mutate.BY_ID.get(oid)
+        for p in [q for q in progs if q.kind == "c"][: (12 if big else 4)]:
+            try:
+                sites = op.sites(p) if op else []
+                if sites:
+                    t, line = op.apply(p, rng.choice(sites))
+                    forced.append((p, t))
+            except Exception:
+                pass
+    variants = [(p, p.text) for p in progs] + [(v[0], v[3]) for v in viol[: (30 if big else 6)]] + forced
+    variants_all = variants
+    variants = [(p, t) for p, t in variants if t.count("\n") == p.text.count("\n")]
     # (b) a comment line between two top-level definitions
-    for p in progs + [v[0] for v in viol[: (20 if big else 4)]]:
-        src = p.text
+    for p, src in variants:
         o0, d0, _ = meta.diags(p.name, src)
         if o0 != "ok":
             continue
@@ -75,10 +91,9 @@ def run(res, tier, br, model_ok=True, search=False):
                     res.report("comment-line:shift", f"{p.name}: comment line inserted above line {at}: outcome {o1}, unexpected {[x for x in d1 if x not in want][:3]}, missing {[x for x in want if x not in d1][:3]}",
                                {"kind": "comment-line", "name": p.name, "src": src, "at": at})
     # (c) appending a conforming function to a file with fewer than five
-    for p in progs + [v[0] for v in viol[: (20 if big else 4)]]:
+    for p, src in variants_all:
         if p.kind != "c" or len(p.functions) >= 5:
             continue
-        src = p.text
         o0, d0, _ = meta.diags(p.name, src)
         if o0 != "ok":
             continue
